@@ -184,8 +184,9 @@ def run(tier, seed):
     v.note("pairs", [t["pair"] for t in ptraces])
     if len(ptraces) < 2:
         v.fail_machinery("coverage floor: only %d nesting pairs generated" % len(ptraces))
-    if ptraces:
-        a = copy.deepcopy(ptraces[0]); a["id"] = 9001
+    ptraces_ok = [t for t in ptraces if "pos" in t]      # (a trace whose file lacks a variable carries `missing' instead)
+    if ptraces_ok:
+        a = copy.deepcopy(ptraces_ok[0]); a["id"] = 9001
         row = a["pos"]["B"]["Rlo"][1]
         a["pos"]["B"]["Rlo"][1] = [x + 300 for x in row]
         mf2, _ = gridprops.validate([a], "C10mut")
